@@ -17,7 +17,7 @@ def run(chk):
     chk.mc("MC_ScriptVM", "MC_ScriptVM_quick.cfg")
     chk.exhaustive = True
     chk.build()
-    jobs = gen_limits.limit_jobs(cmp=CMP)
+    jobs = gen_limits.limit_jobs(cmp=CMP, modes_extra=("rewind",))
     if chk.tier == "thorough":
         # the same boundaries under every single execution-relevant flag and the standard set
         extra = []
